@@ -1775,6 +1775,33 @@ impl FilterResolved {
         matches!(self, FilterResolved::AndNot(_, _))
     }
 
+    /// Does this filter contain an AndNot that the index layer can not resolve? An AndNot
+    /// is only meaningful to the index layer as a term of an And that also has at least
+    /// one positive term to exclude from. Anywhere else (the root, inside an Or, an And of
+    /// only AndNot terms or an empty And) no candidate set can be built for it.
+    pub(crate) fn has_unguarded_andnot(&self) -> bool {
+        match self {
+            FilterResolved::AndNot(_, _) => true,
+            FilterResolved::Or(l, _) | FilterResolved::Inclusion(l, _) => {
+                l.iter().any(|f| f.has_unguarded_andnot())
+            }
+            FilterResolved::And(l, _) => {
+                !l.iter().any(|f| !f.is_andnot())
+                    || l.iter().any(|f| match f {
+                        FilterResolved::AndNot(f_in, _) => f_in.has_unguarded_andnot(),
+                        f => f.has_unguarded_andnot(),
+                    })
+            }
+            FilterResolved::Eq(..)
+            | FilterResolved::Cnt(..)
+            | FilterResolved::Stw(..)
+            | FilterResolved::Enw(..)
+            | FilterResolved::Pres(..)
+            | FilterResolved::LessThan(..)
+            | FilterResolved::Invalid(_) => false,
+        }
+    }
+
     #[inline(always)]
     fn get_slopeyness_factor(&self) -> Option<NonZeroU8> {
         match self {
